@@ -53,6 +53,7 @@ func libChild() {
 			libHistory(run, a.First+i, a.Steps)
 		case "conc":
 			concCase(run, a.First+i)
+			flipCase(run, a.First+i)
 		}
 	}
 	os.Exit(0)
@@ -244,6 +245,8 @@ func main() {
 		run.FloorCounter("refused_updates_observed", 50)
 		run.FloorCounter("http_refused_updates_observed", 1)
 		run.FloorCounter("deletes_acked", 5)
+		run.FloorCounter("constant_size_chains_verified", int64(nConc/2))
+		run.FloorCounter("constant_size_refused_updates", 100)
 		run.FloorCounter("order_constraints_checked", 100)
 		run.FloorCounter("crash_points_hit", int64(run.Pick(60, 600)))
 		run.FloorCounter("error_injections_applied", int64(run.Pick(100, 1000)))
